@@ -1,12 +1,17 @@
 #!/bin/bash
-# usage: tools/try_patch.sh <patch.diff> C16 [C13 ...]   -- apply patch to /repo, run quick checks, undo
+# usage: tools/try_patch.sh <patch.diff> C16 [C13 ...]
+# Applies the patch in a private scratch worktree of /repo (never in /repo itself), runs the
+# quick checks against it (MICI_REPO), removes the worktree.  TIER=thorough for the thorough tier.
 set -u
 patch=$(realpath "$1"); shift
+wt=$(mktemp -d /tmp/wt-XXXXXX)
+git -C /repo worktree add -q --detach "$wt" HEAD || exit 3
+trap 'git -C /repo worktree remove --force "$wt" >/dev/null 2>&1; rm -rf "$wt"' EXIT
+# carry over uncommitted changes of /repo (normally none)
+git -C "$wt" apply "$patch" || { echo "PATCH DOES NOT APPLY"; exit 3; }
 cd /verif
-git -C /repo apply "$patch" || { echo "PATCH DOES NOT APPLY"; exit 3; }
-trap 'git -C /repo checkout -- . ' EXIT
 for p in "$@"; do
-  echo "=== $p on $(basename $patch)"
-  timeout 3000 ./check "$p" --tier "${TIER:-quick}" 2>&1 | grep -E "^(VIOLATION|KNOWN-FINDING|OK|MACHINERY)|^  " | head -8
+  echo "=== $p on $(basename "$patch")"
+  MICI_REPO="$wt" VERIF_EVIDENCE_DIR="$wt/.evidence" timeout 3000 ./check "$p" --tier "${TIER:-quick}" 2>&1 | grep -E "^(VIOLATION|KNOWN-FINDING|OK|MACHINERY)|^  " | head -8
   echo "exit=${PIPESTATUS[0]}"
 done
